@@ -531,6 +531,7 @@ pub fn all() -> Vec<(&'static str, &'static str, fn() -> R)> {
         ("C13", "failed_set_len", c13_failed_set_len),
         ("C14", "lock_depth", c14_lock_depth),
         ("C15", "small_cycle", c15_small_cycle),
+        ("C11", "length_near_u64_max", c11_length_near_u64_max),
         ("C02", "mini_stream_small", c02_mini_stream_small),
         ("C02", "mini_stream_limit", c02_mini_stream_limit),
     ]
@@ -932,6 +933,110 @@ pub fn c02_mini_stream_limit() -> R {
             Ok(Ok(_)) => {}
             Ok(Err(e)) => return Err(e),
             Err(_) => return Err(format!("panic: version 3 file with {} mini sectors", n)),
+        }
+    }
+    Ok(())
+}
+
+
+/// Stream entries whose recorded length is absurd (close to u64::MAX, 2^63, 2^32 ...): open
+/// accepts such files; positions and lengths computed from them must not overflow (no panic
+/// in a debug build, no wrap-around in a release build) in any handle operation or on drop.
+pub fn c11_length_near_u64_max() -> R {
+    for v in [Version::V3, Version::V4] {
+        let sl = v.sector_len();
+        let (buf, mut c) = fresh(v);
+        c.create_stream("/a").unwrap().write_all(&[1u8; 100]).unwrap();
+        c.create_stream("/b").unwrap().write_all(&[2u8; 5000]).unwrap();
+        drop(c);
+        let base = buf.snapshot();
+        let dir_sector = u32::from_le_bytes(base[48..52].try_into().unwrap()) as usize;
+        let ent = |slot: usize| (dir_sector + 1) * sl + 128 * slot;
+        let lens = [u64::MAX, u64::MAX - 5, u64::MAX - 4095, u64::MAX - (1 << 20), 1u64 << 63, (1u64 << 63) - 1, (1u64 << 32) + 5, u32::MAX as u64, (u32::MAX - 5) as u64];
+        for slot in [1usize, 2] {
+            for &len in lens.iter() {
+                for strict in [false, true] {
+                    for script in 0..7 {
+                        let mut bytes = base.clone();
+                        let o = ent(slot) + 120;
+                        bytes[o..o + 8].copy_from_slice(&len.to_le_bytes());
+                        let what = format!("{:?} entry {} length := {} ({}) script {}", v, slot, len, if strict { "strict" } else { "permissive" }, script);
+                        let b = SharedBuf::new(bytes);
+                        let opened = no_panic(&format!("open {}", what), || {
+                            if strict { CompoundFile::open_strict(b) } else { CompoundFile::open(b) }
+                        })?;
+                        let mut c = match opened {
+                            Ok(c) => c,
+                            Err(_) => continue,
+                        };
+                        let p = if slot == 1 { "/a" } else { "/b" };
+                        // the handle is created, used and dropped in separate guarded steps so
+                        // that a panic during drop is reported, not turned into an abort
+                        let s = no_panic(&format!("open_stream {}", what), || c.open_stream(p))?;
+                        let mut s = match s {
+                            Ok(s) => s,
+                            Err(_) => continue,
+                        };
+                        let r = catch_unwind(AssertUnwindSafe(|| {
+                            let mut b10 = [0u8; 10];
+                            match script {
+                                0 => {
+                                    let _ = s.seek(SeekFrom::End(0));
+                                    let _ = s.write(&[9u8; 10]);
+                                    let _ = s.flush();
+                                }
+                                1 => {
+                                    let _ = s.seek(SeekFrom::End(-3));
+                                    let _ = s.write_all(&[9u8; 10]);
+                                }
+                                2 => {
+                                    let _ = s.seek(SeekFrom::End(0));
+                                    let _ = s.read(&mut b10);
+                                    let _ = s.seek(SeekFrom::Current(1));
+                                    let _ = s.seek(SeekFrom::Current(i64::MAX));
+                                    let _ = s.stream_position();
+                                }
+                                3 => {
+                                    let _ = s.seek(SeekFrom::Start(len.saturating_sub(4)));
+                                    let _ = s.read(&mut b10);
+                                    let _ = std::io::BufRead::fill_buf(&mut s).map(|b| b.len());
+                                    let _ = s.write(&[1u8; 4096]);
+                                    let _ = s.write(&[1u8; 4096]);
+                                }
+                                4 => {
+                                    let _ = s.set_len(len);
+                                    let _ = s.set_len(len.wrapping_add(1));
+                                    let _ = s.set_len(10);
+                                }
+                                5 => {
+                                    let mut v = Vec::new();
+                                    let _ = (&mut s).take(20_000).read_to_end(&mut v);
+                                    let _ = s.seek(SeekFrom::End(0));
+                                    let _ = s.write(&[7u8; 3]);
+                                    let _ = s.seek(SeekFrom::Start(0));
+                                    let _ = s.read(&mut b10);
+                                }
+                                _ => {
+                                    let _ = s.seek(SeekFrom::End(0));
+                                    let _ = s.write(&[9u8; 10]);
+                                    // dropped dirty below
+                                }
+                            }
+                        }));
+                        if r.is_err() {
+                            // a handle that panicked must not be dropped here: its drop flushes again
+                            std::mem::forget(s);
+                            return Err(format!("panic in {}", what));
+                        }
+                        no_panic(&format!("drop of the handle, {}", what), move || drop(s))?;
+                        no_panic(&format!("calls after {}", what), || {
+                            let _ = c.walk().count();
+                            let _ = c.remove_stream(p);
+                            let _ = c.flush();
+                        })?;
+                    }
+                }
+            }
         }
     }
     Ok(())
